@@ -23,134 +23,6 @@ open FontVerif FontVerif.Interp FontVerif.InterpLemmas FontVerif.InterpLoops Fon
 open FontVerif.InterpRunLemmas FontVerif.InterpDataLemmas FontVerif.InterpLoopsLemmas
 set_option linter.unusedVariables false
 
-/-- the state `semAll` works on: `pend` cleared -/
-theorem finv_pend (f : F) (h : FInv f) : FInv { f with pend := false } := h
-
-/-! ### error kinds of the stack subset -/
-
-theorem EP_push (cap : Nat) (vs : List Int) (v : Int) : EP (push cap vs v) := by
-  unfold push; split
-  · exact EP_ok _
-  · exact EP_err (by unfold Kind; decide)
-
-theorem EP_pop (ped : Bool) (vs : List Int) : EP (pop ped vs) := by
-  intro e h; rw [pop_err h]; unfold Kind; decide
-
-theorem EP_applyBinary (ped : Bool) (cap : Nat) (vs : List Int) (f : Int → Int → Int) : EP (applyBinary ped cap vs f) := by
-  unfold applyBinary
-  split
-  · rename_i e he; exact EP_err (EP_pop _ _ _ he)
-  · split
-    · rename_i e he; exact EP_err (EP_pop _ _ _ he)
-    · exact EP_push _ _ _
-
-theorem EP_applyUnary (ped : Bool) (cap : Nat) (vs : List Int) (f : Int → Int) : EP (applyUnary ped cap vs f) := by
-  unfold applyUnary
-  split
-  · rename_i e he; exact EP_err (EP_pop _ _ _ he)
-  · exact EP_push _ _ _
-
-theorem EP_ret {cap : Nat} {r : Except Err (List Int)} (h : EP r) :
-    EP (match r with | .ok vs => (Except.ok (vs, cap) : Except Err (List Int × Nat)) | .error e => .error e) := by
-  cases r with
-  | error e => exact EP_err (h e rfl)
-  | ok v => exact EP_ok _
-
-theorem EP_map {α β} {r : Except Err α} (f : α → β) (h : EP r) : EP (r.map f) := by
-  cases r with
-  | error e => exact EP_err (h e rfl)
-  | ok v => exact EP_ok _
-
-/-- the stack / push / arithmetic subset raises ValueStackOverflow / ValueStackUnderflow only (an opcode outside the
-    subset is `Err.data op`, which is not the panic marker for an opcode BYTE) -/
-theorem semSubset_kind (ped : Bool) (op : Nat) (hop : op < 256) (bytes : List Nat) (vs : List Int) (cap : Nat) :
-    EP (semSubset ped op bytes (vs, cap)) := by
-  unfold semSubset
-  simp only []
-  by_cases c0 : op = 0x40 ∨ op = 0x41 ∨ (0xB0 ≤ op ∧ op ≤ 0xBF)
-  · rw [if_pos c0]
-    split
-    · exact EP_ok _
-    · exact EP_err (by unfold Kind; decide)
-  rw [if_neg c0]
-  by_cases c1 : op = 0x20
-  · rw [if_pos c1]
-    split
-    · exact EP_ret (EP_push _ _ _)
-    · split
-      · exact EP_err (by unfold Kind; decide)
-      · exact EP_ret (EP_push _ _ _)
-  rw [if_neg c1]
-  by_cases c2 : op = 0x21
-  · rw [if_pos c2]
-    exact EP_ret (EP_map _ (EP_pop _ _))
-  rw [if_neg c2]
-  by_cases c3 : op = 0x22
-  · rw [if_pos c3]
-    exact EP_ok _
-  rw [if_neg c3]
-  by_cases c4 : op = 0x23
-  · rw [if_pos c4]
-    split
-    · rename_i e he; exact EP_err (EP_pop _ _ _ he)
-    · split
-      · rename_i e he; exact EP_err (EP_pop _ _ _ he)
-      · split
-        · rename_i e he; exact EP_err (EP_push _ _ _ _ he)
-        · exact EP_ret (EP_push _ _ _)
-  rw [if_neg c4]
-  by_cases c5 : op = 0x24
-  · rw [if_pos c5]
-    exact EP_ret (EP_push _ _ _)
-  rw [if_neg c5]
-  by_cases c6 : op = 0x60
-  · rw [if_pos c6]
-    exact EP_ret (EP_applyBinary _ _ _ _)
-  rw [if_neg c6]
-  by_cases c7 : op = 0x61
-  · rw [if_pos c7]
-    exact EP_ret (EP_applyBinary _ _ _ _)
-  rw [if_neg c7]
-  by_cases c8 : op = 0x65
-  · rw [if_pos c8]
-    exact EP_ret (EP_applyUnary _ _ _ _)
-  rw [if_neg c8]
-  by_cases c9 : op = 0x50
-  · rw [if_pos c9]
-    exact EP_ret (EP_applyBinary _ _ _ _)
-  rw [if_neg c9]
-  by_cases c10 : op = 0x53
-  · rw [if_pos c10]
-    exact EP_ret (EP_applyBinary _ _ _ _)
-  rw [if_neg c10]
-  by_cases c11 : op = 0x54
-  · rw [if_pos c11]
-    exact EP_ret (EP_applyBinary _ _ _ _)
-  rw [if_neg c11]
-  by_cases c12 : op = 0x5A
-  · rw [if_pos c12]
-    exact EP_ret (EP_applyBinary _ _ _ _)
-  rw [if_neg c12]
-  by_cases c13 : op = 0x5B
-  · rw [if_pos c13]
-    exact EP_ret (EP_applyBinary _ _ _ _)
-  rw [if_neg c13]
-  by_cases c14 : op = 0x5C
-  · rw [if_pos c14]
-    exact EP_ret (EP_applyUnary _ _ _ _)
-  rw [if_neg c14]
-  by_cases c15 : op = 0x4F
-  · rw [if_pos c15]
-    exact EP_ret (EP_map _ (EP_pop _ _))
-  rw [if_neg c15]
-  split
-  · exact EP_ok _
-  · refine EP_err ?_
-    unfold Kind E_PANIC
-    intro h
-    have := Err.data.inj h
-    omega
-
 /-! ### one successful data opcode -/
 
 /-- the conclusion of `semAll_ok` for a state that differs from `f` only in `g` -/
@@ -173,25 +45,6 @@ theorem loop_branch (ped : Bool) (op : Nat) (f : F) (vs vs' : List Int) (g' : G)
   have hl := semLoopOp_len ped op vs vs' f.g g' h
   refine with_g_ok f vs vs' g' hinv hst ?_
   rw [hst.2.2.2.2.2]; omega
-
-/-- pushes grow the stack by their operand count -/
-theorem semSubset_push_len (ped : Bool) (op : Nat) (bytes : List Nat) (vs vs' : List Int) (cap cap' : Nat)
-    (hop : op = 0x40 ∨ op = 0x41 ∨ (0xB0 ≤ op ∧ op ≤ 0xBF))
-    (h : semSubset ped op bytes (vs, cap) = .ok (vs', cap')) :
-    vs'.length = vs.length + (operandValues op bytes).length := by
-  unfold semSubset at h
-  simp only [] at h
-  rw [if_pos hop] at h
-  split at h
-  · have h0 := Prod.mk.inj (Except.ok.inj h)
-    rw [← h0.1]; simp; omega
-  · cases h
-
-/-- IUP leaves the loop state alone except for the two `did_iup` flags -/
-theorem semLoopOp_iup (ped : Bool) (op : Nat) (hop : op = 0x30 ∨ op = 0x31) (vs : List Int) (g : G) :
-    ∃ g', semLoopOp ped op vs g = some (.ok (vs, g')) ∧ g'.iters = g.iters ∧ g'.loop = g.loop ∧
-      g'.glyphPts = g.glyphPts ∧ g'.twiPts = g.twiPts ∧ g'.glyphContours = g.glyphContours ∧ g'.cap = g.cap := by
-  rcases hop with hop | hop <;> subst hop <;> simp [semLoopOp] <;> split <;> simp
 
 /-- **a successful data opcode**: `Step` on the loop state (well-formedness, zone sizes, contour list and stack
     capacity unchanged, at most `work` iterations), the stack within capacity, the invariant kept, and the storage /
@@ -367,52 +220,6 @@ theorem semAll_ok (A : Arith) (ped : Bool) (op : Nat) (bytes : List Nat) (vs vs'
   semCore_ok A ped op bytes vs vs' { f with pend := false } f' hinv hstk h
 
 /-! ### errors are `HintErrorKind` values, never the panic marker -/
-
-theorem popN_args_len (ped : Bool) : ∀ (n : Nat) (vs args vs1 : List Int), popN ped n vs = .ok (args, vs1) →
-    args.length = n := by
-  intro n
-  induction n with
-  | zero => intro vs args vs1 h; simp [popN] at h; rw [h.1]; rfl
-  | succ n ih =>
-    intro vs args vs1 h
-    unfold popN at h
-    split at h
-    · cases h
-    · split at h
-      · cases h
-      · rename_i as vs3 hr
-        have h0 := Prod.mk.inj (Except.ok.inj h)
-        rw [← h0.1]; simp; exact ih _ _ _ hr
-
-theorem EP_popN (ped : Bool) (n : Nat) (vs : List Int) : EP (popN ped n vs) := by
-  intro e h; rw [popN_err ped n vs e h]; unfold Kind; decide
-
-theorem EP_pushAll (cap : Nat) (vs outs : List Int) : EP (pushAll cap vs outs) := by
-  intro e h; rw [pushAll_err h]; unfold Kind; decide
-
-theorem derr_kind (e : DErr) : Kind e.toErr := by
-  cases e <;> (unfold Kind DErr.toErr; decide)
-
-/-- a loop opcode wrapped into the full state -/
-theorem EP_loop_wrap (ped : Bool) (op : Nat) (hop : op < 256) (vs : List Int) (f : F) :
-    EP (match semLoopOp ped op vs f.g with
-        | some (.ok (vs', g')) => (Except.ok (vs', { f with g := g' }) : ER)
-        | some (.error e) => .error e
-        | none => .error (.data op)) := by
-  split
-  · exact EP_ok _
-  · rename_i e he; exact EP_err (semLoopOp_kind ped op vs f.g _ he e rfl)
-  · refine EP_err ?_
-    unfold Kind E_PANIC
-    intro h
-    have := Err.data.inj h
-    omega
-
-/-- the loop opcodes are defined (`some`) on their own opcode bytes -/
-theorem semLoopOp_some (ped : Bool) (op : Nat)
-    (hop : op = 0x25 ∨ op = 0x26 ∨ op = 0x5D ∨ op = 0x71 ∨ op = 0x72 ∨ op = 0x30 ∨ op = 0x31) (vs : List Int) (g : G) :
-    ∃ r, semLoopOp ped op vs g = some r := by
-  rcases hop with h | h | h | h | h | h | h <;> subst h <;> simp [semLoopOp]
 
 /-- **no data opcode panics**: on a state satisfying the invariant, with the stack within capacity, every error of
     every opcode byte is a `HintErrorKind` value — never the marker of an out-of-bounds index, a `copy_from_slice`
